@@ -68,18 +68,26 @@ func runAlias(o *hxlib.Out, c aliasCase) {
 	o.Count("alias_cases")
 	d := func() map[string]any {
 		n1, n2 := c.t1.n, c.t2.n
-		lo := new(big.Int).Mod(V, pow2(n1))
-		ext := new(big.Int).Set(lo)
-		if c.t2.signed && n1 <= n2 && lo.Bit(n1-1) == 1 {
-			ext.Sub(ext, pow2(n1))
+		// Program.Circuit (3c18dfa): a constant used at another width than the
+		// wires of the first registered instance takes its bits from its own
+		// value; a TInt constant is sign-extended from its own mpa size.
+		own := constantSize(V.BitLen())
+		if own > n2 {
+			own = n2
+		}
+		ext := new(big.Int).Mod(V, pow2(own))
+		signBitSet := ext.Bit(own-1) == 1
+		if c.t2.signed && signBitSet {
+			ext.Sub(ext, pow2(own))
 		}
 		ext.Mod(ext, pow2(n2))
 		want := new(big.Int).Mod(V, pow2(n2))
 		return map[string]any{
 			"first_type": c.t1.name(), "second_type": c.t2.name(), "value": c.v.String(), "printed_value": V.String(),
 			"first_narrower": bs(n1 < n2), "second_signed": bs(c.t2.signed), "second_is_folded_sum": bs(c.sum),
-			// would re-widening the first constant's n1 wires by the second use's rule change the value?
-			"rewidening_changes_value": bs(n1 < n2 && ext.Cmp(want) != 0),
+			// does re-extending the second use from its own value and mpa size change the value?
+			"rewidening_changes_value": bs(n1 != n2 && ext.Cmp(want) != 0),
+			"nonneg_value_with_top_bit_of_its_mpa_size_set": bs(c.v.Sign() >= 0 && V.Bit(constantSize(V.BitLen())-1) == 1),
 			"const_program": strings.ReplaceAll(cprog, "\n", " "),
 		}
 	}
@@ -100,6 +108,10 @@ func runAlias(o *hxlib.Out, c aliasCase) {
 	for _, yx := range [][2]int64{{0, 0}, {1, 3}} {
 		y, x := big.NewInt(yx[0]), big.NewInt(yx[1])
 		co, e1 := compute(cp.circ, []*big.Int{y, x})
+		if e1 == "" && yx[0] == 0 {
+			o.Op(fmt.Sprintf("c12 alias %s %d %s %d %s %s", c.t1.su(), c.t1.n, c.t2.su(), c.t2.n, c.v, v2),
+				fmt.Sprintf("ok %s %s", co[0].Text(16), co[1].Text(16)))
+		}
 		ro, e2 := compute(rp.circ, []*big.Int{c.t1.enc(c.v), c.t2.enc(v2), y, x})
 		if e1 != "" || e2 != "" {
 			continue
